@@ -27,7 +27,7 @@ if mode == "nvx":
     from _nvx_xormasker import ffi, lib
     from autobahn.nvx import _xormasker as nx
     assert xm.create_xor_masker is nx.create_xor_masker
-    assert os.path.dirname(sys.modules["_nvx_xormasker"].__file__).startswith("/verif/build/nvx")
+    assert os.path.dirname(sys.modules["_nvx_xormasker"].__file__).startswith(os.path.join(os.path.dirname(os.path.dirname(os.path.dirname(os.path.abspath(__file__)))), "build", "nvx"))
 
     class Direct:
         """lib called directly; every chunk is placed at address === align (mod 16)."""
